@@ -149,6 +149,19 @@ def wp_ok(t):
 
 MUST_REJECT = ['foo(1,)', 'foo(a, b, )', 'bar(foo(1,), 2)', 'foo(,)', 'foo(, 1)', 'foo(1,,2)', 'foo(1 2)', '(a,)', '1e5', 'a * 1.5e2', 'f0(1e5, 2)', '2E+3', '1e', '1e+', '.5', '1.2.3', '1_000', '0x10', 'a + 3e7 * b']
 
+PLUS_SIGNED = [
+    ([('num', '+5')], '+5'),
+    ([('num', '1'), ('op', '-'), ('num', '+2')], '1 - +2'),
+    ([('num', '1'), ('op', '+'), ('num', '+2')], '1++2'),
+    ([('num', '2'), ('op', '**'), ('num', '+3'), ('op', '**'), ('num', '2')], '2 ** +3 ** 2'),
+    ([('id', 'fn'), ('(', '('), ('num', '+1'), (',', ','), ('num', '+2.5'), (')', ')')], 'fn(+1, +2.5)'),
+    ([('un', '-'), ('num', '+5')], '-+5'),
+    ([('id', 'a'), ('op', '*'), ('num', '+7e+2')], 'a*+7e+2'),
+    ([('(', '('), ('num', '+0'), (')', ')'), ('op', '<='), ('num', '+1e-3')], '(+0)<=+1e-3'),
+    ([('junk', '+'), ('num', '5')], '+ 5'),
+    ([('junk', '+'), ('id', 'a')], '+a'),
+    ([('junk', '+'), ('(', '('), ('num', '1'), (')', ')')], '+(1)'),
+]
 
 # ------------------------------------------------------------------ generators
 def str_tok(r):
@@ -291,6 +304,9 @@ def run(tier):
     # ill-formed number spellings: an exponent needs its sign (the literal grammar is  digits[.digits][e(+|-)digits])
     for text in MUST_REJECT:
         cases.append((None, text, 'must-reject'))
+    # a number literal may carry an explicit plus sign at an operand position (`+` is not a unary operator: `+ 5` and `+a` are errors)
+    for toks, text in PLUS_SIGNED:
+        cases.append((toks, text, 'corpus'))
     # exhaustive operator chains (identifier operands)
     maxlen = 4
     names = ['a', 'b', 'c', 'd', 'e']
